@@ -3,7 +3,10 @@
 //! `pb <schema> <hex>`      prost-generated decoder of a schema (kad | identify | bitswap | noise | key)
 //! `kad <hex> <repl>`       `KademliaMessage::from_bytes`
 //! `key <hex>`              `RemotePublicKey::from_protobuf_encoding`
-//! `enc <kind> …`           the library's own Kademlia encoders (returns `ok <hex>`)
+//! `enc <kind> …`           the library's own Kademlia encoders (returns `ok <hex> #in <the inputs as bytes>`)
+//! `encpb <schema> <spec>`  prost `encode` of a structured message, then `decode` of those bytes
+//!                          (returns `ok <hex> ==> <dump>`); spec: `-` empty bytes, `none` absent, `*` empty
+//!                          list, `+` between byte strings, `;` between messages, `/` `,` `:` between fields
 //! `rt <kind> …`            encode with the library's encoder, then `KademliaMessage::from_bytes`
 //! Every answer ends with ` alloc=<peak bytes allocated while decoding>` when the harness installed
 //! its counting allocator.
@@ -18,6 +21,70 @@ impl DecoderBox {
     pub fn new() -> Self {
         Self
     }
+}
+
+/// Spec helpers shared by the `encpb` parsers (`None` = malformed ⇒ `bad-op`).
+pub(crate) mod spec {
+    pub fn b(s: &str) -> Option<Vec<u8>> {
+        if s == "-" {
+            return Some(Vec::new());
+        }
+        if s.is_empty() || s.len() % 2 != 0 || !s.bytes().all(|c| c.is_ascii_hexdigit()) {
+            return None;
+        }
+        Some(crate::verif::unhex(s))
+    }
+    pub fn ob(s: &str) -> Option<Option<Vec<u8>>> {
+        if s == "none" {
+            Some(None)
+        } else {
+            b(s).map(Some)
+        }
+    }
+    pub fn lb(s: &str) -> Option<Vec<Vec<u8>>> {
+        if s == "*" || s.is_empty() {
+            Some(Vec::new())
+        } else {
+            s.split('+').map(b).collect()
+        }
+    }
+    pub fn st(s: &str) -> Option<String> {
+        String::from_utf8(b(s)?).ok()
+    }
+    pub fn ost(s: &str) -> Option<Option<String>> {
+        if s == "none" {
+            Some(None)
+        } else {
+            st(s).map(Some)
+        }
+    }
+    pub fn lst(s: &str) -> Option<Vec<String>> {
+        lb(s)?.into_iter().map(|v| String::from_utf8(v).ok()).collect()
+    }
+    pub fn int(s: &str) -> Option<i32> {
+        s.parse().ok()
+    }
+    pub fn b01(s: &str) -> Option<bool> {
+        match s {
+            "0" => Some(false),
+            "1" => Some(true),
+            _ => None,
+        }
+    }
+    pub fn list<T>(s: &str, item: impl Fn(&str) -> Option<T>) -> Option<Vec<T>> {
+        if s == "*" {
+            Some(Vec::new())
+        } else {
+            s.split(';').map(item).collect()
+        }
+    }
+}
+
+fn key_encpb(t: &[&str]) -> Option<String> {
+    let [ty, data] = t else { return None };
+    let m = crate::crypto::keys_proto::PublicKey { r#type: spec::int(ty)?, data: spec::b(data)?, ..Default::default() };
+    let bytes = m.encode_to_vec();
+    Some(format!("ok {} ==> {}", crate::verif::hexd(&bytes), key_pb(&bytes)))
 }
 
 fn key_pb(bytes: &[u8]) -> String {
@@ -77,10 +144,19 @@ impl VerifBox for DecoderBox {
                 ),
                 None => "bad-op".into(),
             },
-            ["enc", rest @ ..] => match crate::protocol::libp2p::kademlia::verif_c19::encode(rest) {
-                Some(b) => format!("ok {}", hex(&b)),
+            ["enc", rest @ ..] => match crate::protocol::libp2p::kademlia::verif_c19::encode_explicit(rest) {
+                Some((b, inputs)) => format!("ok {} #in {}", hex(&b), inputs),
                 None => "bad-op".into(),
             },
+            ["encpb", schema, rest @ ..] => match *schema {
+                "kad" => crate::protocol::libp2p::kademlia::verif_c19::encpb(rest),
+                "identify" => crate::protocol::libp2p::identify::verif_c19::encpb(rest),
+                "bitswap" => crate::protocol::libp2p::bitswap::verif_c19::encpb(rest),
+                "noise" => crate::crypto::noise::verif_c19::encpb(rest),
+                "key" => key_encpb(rest),
+                _ => None,
+            }
+            .unwrap_or_else(|| "bad-op".into()),
             _ => "bad-op".into(),
         }
     }
